@@ -566,7 +566,21 @@ func compareWithGo(o *vh.Out, g *goChecked, c *checked, caseLine string) {
 	for id, obj := range g.info.Uses {
 		cmp(id, obj, "use")
 	}
-	// expression types (statistics; identifiers' entries in Types are part of the comparison)
+	// expression types: every expression go/types has a type for must be in typesutil's Types
+	// (agreement of the type strings is counted only: untyped constants are recorded differently)
+	parents := map[goast.Expr]goast.Node{}
+	var stack []goast.Node
+	goast.Inspect(g.file, func(n goast.Node) bool {
+		if n == nil {
+			stack = stack[:len(stack)-1]
+			return true
+		}
+		if e, ok := n.(goast.Expr); ok && len(stack) > 0 {
+			parents[e] = stack[len(stack)-1]
+		}
+		stack = append(stack, n)
+		return true
+	})
 	type key struct{ lo, hi int }
 	xt := map[key]types.TypeAndValue{}
 	for e, tv := range c.info.Types {
@@ -581,6 +595,14 @@ func compareWithGo(o *vh.Out, g *goChecked, c *checked, caseLine string) {
 		x, ok := xt[k]
 		if !ok {
 			o.Count("types_missing_" + kind)
+			// Info.Types: "maps expressions to their types … invalid expressions are omitted"
+			par, ok := parents[e]
+			if !ok {
+				o.Count("gotypes_synthesized_expr") // e.g. the literal 1 go/types makes up for x++
+				continue
+			}
+			ctx := ":in-" + strings.TrimPrefix(reflect.TypeOf(par).String(), "*ast.")
+			o.Oracle("types-not-recorded:"+kind+ctx, caseLine, fmt.Sprintf("%s at offset %d..%d: go/types records type %s, typesutil records nothing", kind, k.lo, k.hi, typeStr(tv.Type)))
 			continue
 		}
 		if typeStr(x.Type) != typeStr(tv.Type) {
